@@ -65,14 +65,14 @@ Hypothesis Hres : force_resolve h p = Ok (t, h').
 Lemma hash_like_target : py_hash h' (VProxy p) = py_hash h' (VObj t).
 Proof. simpl. destruct (force_resolve_state _ _ _ _ Hres) as [E _]. rewrite E. reflexivity. Qed.
 
-Lemma eq_left o : py_eq h' (VProxy p) (VObj o) = Ok (t =? o, h').
+Lemma eq_left o : py_eq h' (VProxy p) (VObj o) = (Ok (t =? o), h').
 Proof. simpl. rewrite (force_resolve_idem _ _ _ _ Hres). reflexivity. Qed.
 
-Lemma eq_right o : py_eq h' (VObj o) (VProxy p) = Ok (t =? o, h').
+Lemma eq_right o : py_eq h' (VObj o) (VProxy p) = (Ok (t =? o), h').
 Proof. simpl. rewrite (force_resolve_idem _ _ _ _ Hres). reflexivity. Qed.
 
 (* `==` resolves by itself: the same answer on the heap before resolution *)
-Lemma eq_resolves o : py_eq h (VProxy p) (VObj o) = Ok (t =? o, h') /\ py_eq h (VObj o) (VProxy p) = Ok (t =? o, h').
+Lemma eq_resolves o : py_eq h (VProxy p) (VObj o) = (Ok (t =? o), h') /\ py_eq h (VObj o) (VProxy p) = (Ok (t =? o), h').
 Proof. simpl. rewrite Hres. split; reflexivity. Qed.
 
 Lemma getattr_delegates : py_getattr h' (VProxy p) = py_getattr h' (VObj t).
@@ -119,7 +119,7 @@ Qed.
    hashes remembered at insertion time is reported absent. *)
 Lemma member_lost h s t :
   (forall e, In e (p_map s) -> e_hash e <> t) ->
-  ps_contains h (VObj t) s = Ok (false, h) /\ ps_index h (VObj t) s = Err KeyErr.
+  ps_contains h (VObj t) s = (Ok false, h) /\ ps_index h (VObj t) s = (Err KeyErr, h).
 Proof.
   intros H. unfold ps_contains, ps_index, map_find. simpl py_hash.
   rewrite d_find_no_hash by exact H. split; reflexivity.
@@ -128,7 +128,7 @@ Qed.
 (* adding to the empty set compares nothing: the entry remembers the hash of now *)
 Lemma add_to_empty h v :
   ps_add h v pset_empty =
-  Ok ({| p_items := [v]; p_map := [{| e_hash := py_hash h v; e_key := v; e_val := 0 |}] |}, h).
+  (Ok {| p_items := [v]; p_map := [{| e_hash := py_hash h v; e_key := v; e_val := 0 |}] |}, h).
 Proof. reflexivity. Qed.
 
 Definition singleton (hs : Z) (v : value) : pset :=
@@ -138,8 +138,8 @@ Definition singleton (hs : Z) (v : value) : pset :=
    the target is a member exactly when hs is the target's hash *)
 Lemma member_iff h p t hs :
   state_of h p = Resolved t ->
-  ps_contains h (VObj t) (singleton hs (VProxy p)) = Ok (hs =? t, h) /\
-  ps_contains h (VProxy p) (singleton hs (VProxy p)) = Ok (hs =? t, h).
+  ps_contains h (VObj t) (singleton hs (VProxy p)) = (Ok (hs =? t), h) /\
+  ps_contains h (VProxy p) (singleton hs (VProxy p)) = (Ok (hs =? t), h).
 Proof.
   intros E. unfold ps_contains, map_find, singleton. simpl. rewrite E.
   destruct (Z.eqb_spec hs t) as [H|H].
@@ -152,8 +152,8 @@ Qed.
 (* inserted when already resolved: found (the true part of C14's membership clause) *)
 Lemma member_resolved_first h p t h1 s1 :
   state_of h p = Resolved t ->
-  ps_add h (VProxy p) pset_empty = Ok (s1, h1) ->
-  h1 = h /\ ps_contains h (VObj t) s1 = Ok (true, h) /\ ps_index h (VObj t) s1 = Ok (0, h).
+  ps_add h (VProxy p) pset_empty = (Ok s1, h1) ->
+  h1 = h /\ ps_contains h (VObj t) s1 = (Ok true, h) /\ ps_index h (VObj t) s1 = (Ok 0, h).
 Proof.
   intros E H. rewrite add_to_empty in H. injection H as Hs Hh. subst s1. subst h1. split; [reflexivity|].
   simpl py_hash. rewrite E. fold (singleton t (VProxy p)).
@@ -166,12 +166,12 @@ Qed.
 (* inserted while unresolved, resolved later: lost, although iteration + `==` finds it *)
 Lemma member_unresolved_first h p path t h1 s1 h2 :
   state_of h p = Unresolved path -> p <> t ->
-  ps_add h (VProxy p) pset_empty = Ok (s1, h1) ->
+  ps_add h (VProxy p) pset_empty = (Ok s1, h1) ->
   force_resolve h1 p = Ok (t, h2) ->
-  ps_contains h2 (VObj t) s1 = Ok (false, h2) /\
-  ps_contains h2 (VProxy p) s1 = Ok (false, h2) /\
-  ps_index h2 (VObj t) s1 = Err KeyErr /\
-  any_eq h2 (VObj t) (p_items s1) = Ok (true, h2).
+  ps_contains h2 (VObj t) s1 = (Ok false, h2) /\
+  ps_contains h2 (VProxy p) s1 = (Ok false, h2) /\
+  ps_index h2 (VObj t) s1 = (Err KeyErr, h2) /\
+  any_eq h2 (VObj t) (p_items s1) = (Ok true, h2).
 Proof.
   intros E N H Hr. rewrite add_to_empty in H. injection H as Hs Hh. subst s1. subst h1.
   simpl py_hash. rewrite E.
